@@ -174,6 +174,26 @@ def run_atomic(res, work, tier, seed):
             cfg["park_after"] = rng.randrange(0, 40)
             cfg["solo"] = solo
         runs.append({"run": rid, "cfg": cfg, "ops": []})
+    # (d') the quantifier of C18 enumerated: every suspension point of two writers (each stopped after a..b of its atomic
+    # steps, in either order, lock held or not) x the reader / a try_update caller run alone with extreme reads-from choices
+    import itertools
+    grid_progs = [[[["upd", 2]], [["upd", 3]], [["snap"]]], [[["upd", 2]], [["try", 3]], [["try", 4], ["snap"]]]]
+    step = 1 if tier != "quick" else 2
+    rf_sets = list(itertools.product([-1, -2], repeat=5 if tier != "quick" else 3))
+    n_grid = 0
+    for gp in grid_progs:
+        for first in (1, 2):
+            second = 3 - first
+            for a in range(0, 10, step):
+                for b in range(0, 10, step):
+                    for rfs in rf_sets:
+                        steps = [[first, "", -2]] * a + [[second, "", -2]] * b
+                        for j in range(16):
+                            steps.append([3, "", rfs[j % len(rfs)]])
+                        rid += 1
+                        n_grid += 1
+                        runs.append({"run": rid, "cfg": {"programs": gp, "sc": False, "seed": rid, "steps": steps, "free_script": True,
+                                                         "park_after": a + b, "solo": [3]}, "ops": []})
     B = 3000
     illegal = []
     nontrivial = 0
@@ -205,7 +225,9 @@ def run_atomic(res, work, tier, seed):
     rule = ("distinct executions of the real snapshot/update/try_update code at atomic-operation granularity on the simulated "
             "release/acquire memory: %d scripted paths covering every edge of one AtomicMC graph (1W1R quick / 2W1R thorough; thread, "
             "reads-from index) + %d seeded random schedules x reads-from choices over %d thread programs (RA and SC, about a "
-            "third with the writers parked at a random point and readers / try_update run alone)" % (n_script, n_rand, len(menu)))
+            "third with the writers parked at a random point and readers / try_update run alone) + %d grid executions (two writers "
+            "stopped after a, b atomic steps in either order x a reader / try_update caller run alone with oldest/newest "
+            "reads-from choices)" % (n_script, n_rand, len(menu), n_grid))
     for p in ("C13", "C18"):
         res.data["witness"][p] = {"count": nontrivial, "rule": "executions (of %d) in which a load read a stale message "
                                   "(not the latest in modification order) or a snapshot had to retry; " % len(runs) + rule}
